@@ -518,8 +518,8 @@ def stream_convties(ctx):
 # ============================================================================= pass 7 (B): torch's stride rules = the modelled views
 
 def stream_views(ctx):
-    """chains of slice / select / expand views of a contiguous LieTensor: storage offset, strides (of every dimension with extent > 1;
-    in items) and lshape equal the model's `View.slice / select / expand` (theorems `view_slice`, `view_select`, `view_expand`,
+    """chains of slice / select / expand / permute (transpose) views of a contiguous LieTensor: storage offset, strides (of every dimension with extent > 1;
+    in items) and lshape equal the model's `View.slice / select / expand / permute` (theorems `view_slice`, `view_select`, `view_expand`, `view_permute`,
     `contiguous_of_view` are about these definitions), and `.contiguous()` holds the items the model addresses"""
     c06 = C()
     rng = c06.det_rng()
@@ -529,7 +529,9 @@ def stream_views(ctx):
         s = [r.choice([1, 2, 3, 4]) for _ in range(r.randint(1, 3))]
         ops, cur = [], list(s)
         for _ in range(r.randint(1, 3)):
-            kind = r.choice("LSE") if cur else "E"
+            kind = r.choice("LSEP") if cur else "E"
+            if kind == "P" and len(cur) < 2:
+                kind = "L"
             if kind == "L":
                 dim = r.randrange(len(cur))
                 step = r.choice([1, 1, 2, 3])
@@ -541,19 +543,25 @@ def stream_views(ctx):
                 dim = r.randrange(len(cur))
                 ops.append(("S", dim, r.randrange(cur[dim])))
                 cur.pop(dim)
+            elif kind == "P":           # pass 10: permute / transpose / movedim of the batch dimensions
+                pm = list(range(len(cur)))
+                while pm == list(range(len(cur))):
+                    r.shuffle(pm)
+                ops.append(("P", tuple(pm)))
+                cur = [cur[a] for a in pm]
             else:
                 new = [r.choice([1, 2, 3]) for _ in range(r.randint(0, 2))] + [(c if c != 1 else r.choice([1, 1, 2, 4])) for c in cur]
                 ops.append(("E", tuple(new)))
                 cur = list(new)
-        cases.append({"kind": "views", "s": s, "ops": [list(o) if o[0] != "E" else ["E", list(o[1])] for o in ops], "lt": LTYPES[n % 8]})
+        cases.append({"kind": "views", "s": s, "ops": [list(o) if o[0] not in "EP" else [o[0], list(o[1])] for o in ops], "lt": LTYPES[n % 8]})
     lines = []
     for c in cases:
         toks = []
         for o in c["ops"]:
-            toks += [o[0]] + ([str(x) for x in o[1:]] if o[0] != "E" else [str(len(o[1]))] + [str(x) for x in o[1]])
+            toks += [o[0]] + ([str(x) for x in o[1:]] if o[0] not in "EP" else [str(len(o[1]))] + [str(x) for x in o[1]])
         lines.append("c06.view " + " ".join([str(len(c["s"]))] + [str(x) for x in c["s"]] + toks))
     reps = ctx.driver.run(lines)
-    for c, rep in zip(cases, reps):
+    for n_case, (c, rep) in enumerate(zip(cases, reps)):
         ctx.note_case(("views", tuple(c["s"]), str(c["ops"])), True)
         ctx.count("views")
         d = DIM[c["lt"]]
@@ -566,6 +574,8 @@ def stream_views(ctx):
                 V = V[(slice(None),) * dim + (slice(start, start + (ln - 1) * step + 1, step),)]
             elif o[0] == "S":
                 V = V.select(o[1], o[2])
+            elif o[0] == "P":
+                V = V.permute(tuple(o[1]) + (len(o[1]),)) if len(o[1]) != 2 or n_case % 2 else V.transpose(0, 1)
             else:
                 V = V.expand(tuple(o[1]) + (d,))
         st, toks = common.parse_reply(rep)
